@@ -610,4 +610,55 @@ theorem tlsFrames_alike (o : Opts) (fk : Option (List Keylog.Key)) {xs ys : List
 
 end Alike2
 
+-- ====================================================================== 4. C09 at the level of the files
+section C09
+open TLX.Keylog
+
+/-- **C09, whole program, FILES with different numbers of secrets blocks.** Two runs: capture files whose readers
+    deliver `T₁` resp. `T₂` — ANY numbers of secrets blocks (ASCII texts; none at all: the secrets come from the `-s` file
+    only) — followed by the SAME remaining items `R`, which hold no further secrets block (`hR`); `-s` files `file₁`,
+    `file₂` or none. If the two key logs (`-s` file, then the blocks) are alike for every session (`SameView`), the
+    outcomes are THE SAME: byte-identical output files, or the same abort. The packets sit at other positions in the two
+    captures, so `Ingest` numbers them differently; `framesFrom_alike` is what bridges that. -/
+theorem export_key_delivery_independent_file' (args : Args) (legacy₁ legacy₂ : Bool) (file₁ file₂ : Option Str)
+    (cap₁ cap₂ : Bytes) (T₁ T₂ : List Bytes) (R : List Container.Item) (ended : Option Container.Err)
+    (hr₁ : Container.readPrefix legacy₁ cap₁ = .ok (T₁.map Container.Item.dsb ++ R, ended))
+    (hr₂ : Container.readPrefix legacy₂ cap₂ = .ok (T₂.map Container.Item.dsb ++ R, ended))
+    (ha₁ : ∀ s ∈ T₁, s.all (· < 0x80) = true) (ha₂ : ∀ s ∈ T₂, s.all (· < 0x80) = true)
+    (hR : ∀ X IS, Ingest.go srcHexClass args.checksumTest T₁.length R = .ok (X, IS) → ∃ F : List Pkt, X = F.map Item.frame)
+    (hv : SameView ((fileKeysOf file₁).getD [] ++ (T₁.map dsbKeysOfBytes).flatten)
+                   ((fileKeysOf file₂).getD [] ++ (T₂.map dsbKeysOfBytes).flatten)) :
+    exportFile mask H P args legacy₁ file₁ cap₁ = exportFile mask H P args legacy₂ file₂ cap₂ := by
+  unfold exportFile exportFrom
+  split
+  · rfl
+  · unfold Ingest.itemsWith
+    rw [hr₁, hr₂]
+    simp only
+    have g₁ := go_dsbs args.checksumTest T₁ ha₁ R 0
+    have g₂ := go_dsbs args.checksumTest T₂ ha₂ R 0
+    rw [Nat.zero_add] at g₁ g₂
+    rw [g₁, g₂]
+    obtain ⟨sh1, sh2⟩ := go_shift args.checksumTest R T₁.length T₂.length
+    cases hg : Ingest.go srcHexClass args.checksumTest T₁.length R with
+    | error e => rw [sh1 e hg]
+    | ok v =>
+      obtain ⟨X, IS⟩ := v
+      obtain ⟨X', IS', hg', hz⟩ := sh2 X IS hg
+      obtain ⟨F, rfl⟩ := hR X IS hg
+      rw [hg']
+      simp only
+      cases ended with
+      | some e => rfl
+      | none =>
+        simp only
+        have h1 := export_key_delivery_independent mask H P (Ingest.lookup IS) freshState args (fileKeysOf file₁)
+          (fileKeysOf file₂) (T₁.map dsbKeysOfBytes) (T₂.map dsbKeysOfBytes) F hv
+        have h2 := framesFrom_alike mask H P (Ingest.lookup IS) (Ingest.lookup IS') freshState args (fileKeysOf file₂)
+          (zip_alike_dsbs _ _ (T₂.map dsbKeysOfBytes) hz)
+        simp only [List.map_map, Function.comp_def] at h1 h2 ⊢
+        rw [h1, h2]
+
+end C09
+
 end TLX.Props.ExportInputs2
